@@ -413,6 +413,107 @@ func TestC19_Sequences(t *testing.T) {
 	}
 }
 
+// ---- the checker stops on every way out of the client (real dcp.Start on the interface-level client, child process) ----
+// Dcp.Close(), a termination signal, and the client stopping by itself because every stream ended: after Start() has
+// returned no ping is issued any more, whichever way the client was stopped.
+func TestC19_ShutdownPaths(t *testing.T) {
+	n := scale(24, 240)
+	_, nsh := shard()
+	var scs []c13Scenario
+	rapid.Check(t, func(rt *rapid.T) {
+		if len(scs) > 0 {
+			return
+		}
+		for i := 0; i < (n+nsh-1)/nsh; i++ {
+			sc := c13Scenario{State: "idle", Health: true, NVb: rapid.SampledFrom([]int{1, 2, 4}).Draw(rt, "nvb"), Events: []int{1}, Acked: []int{1},
+				Auto: rapid.Bool().Draw(rt, "auto"), DelayMs: 40}
+			switch rapid.SampledFrom([]string{"close", "signal", "streams_end", "signal", "streams_end"}).Draw(rt, "path") {
+			case "signal":
+				sc.Signal = true
+			case "streams_end":
+				sc.StreamsEnd = true
+			}
+			scs = append(scs, sc)
+		}
+	})
+	out := make([]string, len(scs))
+	var wg sync.WaitGroup
+	sem := make(chan struct{}, 8)
+	for i := range scs {
+		wg.Add(1)
+		go func(i int) {
+			defer wg.Done()
+			sem <- struct{}{}
+			defer func() { <-sem }()
+			out[i] = c19ExecShutdown(scs[i])
+		}(i)
+	}
+	wg.Wait()
+	for i, d := range out {
+		if strings.HasPrefix(d, "HARNESS:") {
+			t.Fatalf("harness trouble: %s (%+v)", d, scs[i])
+		}
+		if d != "" {
+			violation(t, "C19", "c19shutdown", scs[i], "%s", d)
+		}
+		path := "close"
+		if scs[i].Signal {
+			path = "signal"
+		}
+		if scs[i].StreamsEnd {
+			path = "streams_end"
+		}
+		record("C19", scs[i], path != "close", "shutdown_path_cases", "shutdown_by_"+path)
+	}
+}
+
+func c19ExecShutdown(sc c13Scenario) string {
+	r := runChild("c13", sc, 90*time.Second)
+	path := "Dcp.Close()"
+	if sc.Signal {
+		path = "a termination signal"
+	}
+	if sc.StreamsEnd {
+		path = "the end of every vBucket stream"
+	}
+	if r.TimeOut {
+		return "HARNESS: shutdown scenario hung"
+	}
+	if r.Exit != 0 {
+		if strings.Contains(r.Stderr, "healthcheck.go") {
+			return fmt.Sprintf("after the client was stopped by %s the health check went on and took the process down: %s", path, firstLine(r.Stderr))
+		}
+		return "HARNESS: child crashed: " + firstLine(r.Stderr)
+	}
+	var res c13Result
+	if err := json.Unmarshal(r.Result, &res); err != nil || !res.Ready || !res.CloseReturned {
+		return "HARNESS: no usable result from the child: " + r.Stdout
+	}
+	if res.PingsAfter != 0 {
+		return fmt.Sprintf("%d pings were issued after the client had been stopped by %s and Start() had returned: the health check was not stopped", res.PingsAfter, path)
+	}
+	for _, l := range res.Leftover {
+		if strings.Contains(l, "healthCheck") {
+			return fmt.Sprintf("the health check goroutine is still alive after the client was stopped by %s: %s", path, l)
+		}
+	}
+	return ""
+}
+
+func init() {
+	registerReplay("c19shutdown", func(raw json.RawMessage) string {
+		var sc c13Scenario
+		if err := json.Unmarshal(raw, &sc); err != nil {
+			return err.Error()
+		}
+		d := c19ExecShutdown(sc)
+		if strings.HasPrefix(d, "HARNESS:") {
+			return ""
+		}
+		return d
+	})
+}
+
 func init() {
 	registerChild("c19", c19Child)
 	registerReplay("c19", func(raw json.RawMessage) string {
